@@ -241,11 +241,44 @@ pub struct SnapCase {
     /// border field (the border field is the border)
     #[serde(default)]
     pub szx: bool,
+    /// the snapshot is the one built into the emulator for tape autoloading (load_tape with the
+    /// autoload setting on): its border byte is the border then
+    #[serde(default)]
+    pub autoload: bool,
 }
 
 /// the border stored in a loaded snapshot is reported and shown
 pub fn check_snapshot(c: &SnapCase, rec: &mut Rec) -> Result<(), String> {
     let machine = c.machine;
+    if c.autoload {
+        let mut o = EmuOpts::new(machine);
+        o.autoload = true;
+        let mut e = mk_emu(&o);
+        let mut mm = MemModel::new(machine, mach::rom_images(machine));
+        mach::poke_bytes(&mut e, &mut mm, BASE, &[0x3E, c.prior & 7, 0xD3, 0xFE, 0xF3, 0x18, 0xFE]);
+        mach::set_regs(&mut e, &RegFile { pc: BASE, sp: 0xBF00, ..Default::default() });
+        mach::run_frames(&mut e, 2)?;
+        let canned = std::fs::read(format!(
+            "/repo/rustzx-core/src/emulator/snapshot/autoload/tape_{}.sna",
+            if machine == Machine::K48 { "48k" } else { "128k" }
+        ))
+        .map_err(|x| format!("harness: canned autoload snapshot: {}", x))?;
+        let t = crate::formats::tap::write(&[crate::formats::tap::block(0xFF, &[1, 2, 3], true)]);
+        e.load_tape(rustzx_core::host::Tape::Tap(crate::host::DynAsset::new(MemAsset::new(t)))).map_err(|x| format!("load_tape: {:?}", x))?;
+        rec.eval();
+        let got: u8 = e.border_color().into();
+        if got != canned[26] & 7 {
+            return Err(format!(
+                "load_tape with autoload on loads the built-in snapshot, whose border byte is {}; border_color() is {} (border before: {})",
+                canned[26] & 7, got, c.prior & 7
+            ));
+        }
+        if c.prior & 7 != canned[26] & 7 {
+            rec.nontrivial(fnv(format!("{:?}", c).as_bytes()));
+        }
+        rec.class("snapshot-border:autoload-snapshot");
+        return Ok(());
+    }
     let mut e = mk_emu(&EmuOpts::new(machine));
     let mut mm = MemModel::new(machine, mach::rom_images(machine));
     // prior border through a real OUT
@@ -365,7 +398,7 @@ pub fn case_strategy() -> impl Strategy<Value = Case> {
 }
 
 pub fn snap_strategy() -> impl Strategy<Value = SnapCase> {
-    (prop_oneof![Just(Machine::K48), Just(Machine::K128)], 0u8..8, 0u8..8, any::<bool>()).prop_map(|(machine, border, prior, szx)| SnapCase { machine, border, prior, szx })
+    (prop_oneof![Just(Machine::K48), Just(Machine::K128)], 0u8..8, 0u8..8, any::<bool>(), prop_oneof![4 => Just(false), 1 => Just(true)]).prop_map(|(machine, border, prior, szx, autoload)| SnapCase { machine, border, prior, szx, autoload })
 }
 
 pub fn run(run: &mut Run) {
@@ -386,7 +419,7 @@ pub fn replay(run: &mut Run, phase: &str, case: &serde_json::Value) -> Result<()
 }
 
 pub const LEVEL: &str = "exploration";
-pub const RULE: &str = "case = machine x looping DI program of 1..40 segments (DJNZ delay 0..255 iterations + 0..5 NOPs, then OUT (0xFE),A or OUT (C),A to a generated even port with any value) plus optional long idle so that some frames contain no write, started at a generated frame offset, run for 2..5 judged frames, in a quarter of the cases with a host I/O extender attached that claims an unrelated port, in a fifth with a Kempston joystick interface present, in a third with the frames emulated in batches of 2..4 per call (only the last frame of a batch is judged); the reference machine executes the same program and timestamps every ULA port write; after each completed frame every one of the 27648 border pixels must show a colour that was current within 8 T-states (16 pixels) of the moment the beam was there (change instant = anywhere inside the I/O cycle), and border_color() must equal the low three bits of the last write; second phase: the border stored in a loaded SNA, or in the border field of an SZX whose port-0xFE field differs, is reported and shown, and a ULA write by the loaded program of the byte the previous program had written last is followed like any other. non-trivial = judged frame with >= 2 colour changes of which >= 1 falls inside the visible border raster (snapshot phase: border differs from the previous one); distinct = hash of (case, frame)";
+pub const RULE: &str = "case = machine x looping DI program of 1..40 segments (DJNZ delay 0..255 iterations + 0..5 NOPs, then OUT (0xFE),A or OUT (C),A to a generated even port with any value) plus optional long idle so that some frames contain no write, started at a generated frame offset, run for 2..5 judged frames, in a quarter of the cases with a host I/O extender attached that claims an unrelated port, in a fifth with a Kempston joystick interface present, in a third with the frames emulated in batches of 2..4 per call (only the last frame of a batch is judged); the reference machine executes the same program and timestamps every ULA port write; after each completed frame every one of the 27648 border pixels must show a colour that was current within 8 T-states (16 pixels) of the moment the beam was there (change instant = anywhere inside the I/O cycle), and border_color() must equal the low three bits of the last write; second phase: the border stored in a loaded SNA, or in the border field of an SZX whose port-0xFE field differs, is reported and shown (likewise the border byte of the built-in snapshot that load_tape loads when autoloading is on), and a ULA write by the loaded program of the byte the previous program had written last is followed like any other. non-trivial = judged frame with >= 2 colour changes of which >= 1 falls inside the visible border raster (snapshot phase: border differs from the previous one); distinct = hash of (case, frame)";
 pub const ASSUMPTIONS: &[&str] = &[
     "write timestamps come from the reference machine (reference Z80 + contention model), trusted through calibration, C03 and C04",
     "border buffer geometry: 320x240, pixel (x,y) at T = first-picture-pixel T + (y-24)*line + (x-32)/2 (property text); the central 256x192 area is not judged; the colour before the first write of a run is not judged",
